@@ -13,6 +13,19 @@ def sh(cmd, cwd=None, timeout=1800):
     except subprocess.TimeoutExpired as e:
         return 124, (e.stdout or b'').decode('utf-8', 'replace') + '\nTIMEOUT'
 
+def keep_evidence(checks):
+    """evidence/<c>.json must describe runs on the UNCHANGED tree: remember the files before a run against a seeded change"""
+    saved = {}
+    for c in checks:
+        f = os.path.join(V, 'evidence', c + '.json')
+        saved[f] = open(f, 'rb').read() if os.path.exists(f) else None
+    return saved
+def restore_evidence(saved):
+    for f, b in saved.items():
+        if b is None:
+            if os.path.exists(f): os.remove(f)
+        else: open(f, 'wb').write(b)
+
 def nextest(wt):
     rc, out = sh('cargo nextest run --workspace --no-fail-fast --test-threads 8 --offline 2>&1 | tail -12', cwd=wt, timeout=1500)
     m = re.search(r'(\d+) tests run: (\d+) passed(?: \((\d+) flaky\))?, (\d+) failed', out)
@@ -55,6 +68,7 @@ def recheck(name):
     rc, out = sh('git -C /repo status --short | grep -v "^??" | head -3')
     if out.strip(): print('/repo is not clean'); return
     caught = res.get('checks', {})
+    saved = keep_evidence(checks)
     try:
         sh('git -C /repo apply %s' % os.path.join(d, 'patch.diff'))
         for c in checks:
@@ -67,6 +81,7 @@ def recheck(name):
             caught[c] = {'exit': rc, 'lines': lines, 'wall_s': round(time.time() - t0, 1), 'replay': {k: rp.get(k) for k in ('program', 'observed', 'broken', 'sched_seed')} if rp else None}
     finally:
         sh('git -C /repo checkout -- .')
+        restore_evidence(saved)
     res['checks'] = caught
     res['caught_by'] = [c for c in caught if caught[c]['exit'] == 1]
     res['ran'].append('recheck: git -C /repo apply; ' + '; '.join('./check %s --tier quick' % c for c in checks) + '; git -C /repo checkout -- .')
@@ -102,6 +117,7 @@ def main():
     rc, out = sh('git -C /repo status --short | grep -v "^??" | head -3')
     if out.strip(): res['error'] = '/repo is not clean'; print(json.dumps(res, indent=1)); return
     caught = {}
+    saved = keep_evidence(checks)
     try:
         rc, out = sh('git -C /repo apply %s' % diff)
         for c in checks:
@@ -115,10 +131,11 @@ def main():
             caught[c] = {'exit': rc, 'lines': lines, 'wall_s': round(time.time() - t0, 1), 'replay': {k: rp.get(k) for k in ('program', 'observed', 'broken', 'sched_seed')} if rp else None}
     finally:
         sh('git -C /repo checkout -- .')
+        restore_evidence(saved)
     res['checks'] = caught
     res['caught_by'] = [c for c in caught if caught[c]['exit'] == 1]
     res['ran'].append('git -C /repo apply; ' + '; '.join('./check %s --tier quick' % c for c in checks) + '; git -C /repo checkout -- .')
-    d = os.path.join(V, 'seeded', '%s_%sm%d' % (prop, 'r2' if wid.endswith('b') else '', n))
+    d = os.path.join(V, 'seeded', '%s_%sm%d' % (prop, {'b': 'r2', 'c': 'r3', 'd': 'r4'}.get(wid[3:4], ''), n))
     os.makedirs(d, exist_ok=True)
     shutil.copy(diff, os.path.join(d, 'patch.diff'))
     ddir = os.path.join(out_dir, 'm%d_demo' % n); drs = os.path.join(out_dir, 'm%d_demo.rs' % n)
